@@ -113,6 +113,10 @@ func genEntries(rt *rapid.T, l string, s Stream, metricOnly, logOnly bool, big b
 		max = 1600
 	}
 	ne := rapid.IntRange(0, max).Draw(rt, l+".ne")
+	if big && rapid.IntRange(0, 2).Draw(rt, l+".edge") == 0 {
+		// exactly at, one below and one above the portions a decoder may cut a stream into (1000 points)
+		ne = rapid.SampledFrom([]int{999, 1000, 1001, 2000, 2001, 3000}).Draw(rt, l+".nedge")
+	}
 	for i := 0; i < ne; i++ {
 		e := Entry{AgoMs: rapid.SampledFrom([]int64{0, 1, 1000, 59000, 3600000, 86400000, -1000}).Draw(rt, fmt.Sprintf("%s.e%d.ago", l, i))}
 		switch {
